@@ -84,6 +84,33 @@ def check_bm(ctx, k):
     ctx.expect(paths, ret=2, abort=2)
 
 
+def check_mi(ctx, k, log=32):
+    """MD* assigned where an MB* is stored: the MB subobject lives 56 bytes into the MD object"""
+    base = ctx.sandbox_base(log)
+    size = 1 << log
+    addr = ctx.sym("addr", 64)
+    stored = addr + 56
+    ok = z3.And(ctx.in_region(addr, base, size), ctx.in_region(stored, base, size))
+    if k == "k_assign_mi":
+        paths = ctx.run(k, [base, addr])
+    else:
+        cell = ctx.sym("cell", 64)
+        ctx.assume(z3.UGE(cell, base), z3.ULE(cell - base, BV(size - 4, 64)))
+        paths = ctx.run(k, [base, cell, addr])
+    for q in paths:
+        if q.status == "ret":
+            if k == "k_assign_mi":
+                ctx.require(q, z3.And(q.ret == stored, ctx.in_region(q.ret, base, size)), "the address that ends up in the tainted pointer (after the C++ pointer conversion) is inside the sandbox")
+            else:
+                st = z3.Concat(*[z3.Select(q.mem, cell + BV(i, 64)) for i in reversed(range(4))])
+                ctx.require(q, z3.And(ctx.in_region(stored, base, size), zext(st, 64) == stored - base),
+                            "the representation stored in the cell designates the converted (base-subobject) address, and that address is inside the sandbox")
+        elif q.status == "abort":
+            ctx.require(q, z3.Not(ok), "aborts only when the object or its base subobject is outside the sandbox")
+    ctx.only(paths, "ret", "abort")
+    ctx.expect(paths, ret=1, abort=1)
+
+
 def check_small(ctx, k):
     """backend whose is_in_same_sandbox is a coarse 4 GiB window while only 64 KiB are sandbox memory:
     the entry points must use the exact membership test"""
@@ -115,6 +142,8 @@ def jobs(tier, seed):
             chks = [dict(name="%s %s %s" % (sbx, kind, tag), fn=check_entry, kw=dict(kind=kind, tag=tag, log=log))
                     for tag in grp for kind in ("assign", "accept", "assignvol")]
             out.append(Job("C02_%s_%d" % (sbx, gi), src, chks))
+    out.append(Job("C02_B32_mi", '#include "verif_sandbox.hpp"\nusing S = B32;\n#include "C02_kernels.inc"\n',
+                   [dict(name="B32 " + k, fn=check_mi, kw=dict(k=k)) for k in ("k_assign_mi", "k_assignvol_mi")], native=False))
     ssrc = '#include "verif_sandbox.hpp"\nusing S = B32S;\n#include "C03_small.inc"\n'
     out.append(Job("C02_B32S", ssrc, [dict(name="B32S " + k, fn=check_small, kw=dict(k=k)) for k in ("k_small_accept", "k_small_assign", "k_small_assignvol")], native=False))
     for k in ("k_bm_assign", "k_bm_accept", "k_bm_assignvol"):
